@@ -64,7 +64,7 @@ class CollideGen:
                 out.append(q)
         return out
 
-    def generate(self):
+    def generate(self, backend='make'):
         rng = self.rng
         proj = G.Project()
         main = []
@@ -142,6 +142,18 @@ class CollideGen:
             targets.append({'name': os.path.join(sub, subname),
                             'kind': 'executable', 'srcs': norm, 'sub': sub})
         extra_conflict = None
+        libs_ = [t for t in targets if t['kind'] == 'library']
+        if backend == 'msbuild' and libs_ and rng.random() < 0.3:
+            # MSVC naming: a shared library `foo` comes with the import
+            # library foo.lib, and a static library `foo` IS foo.lib - one
+            # output named twice (gcc naming keeps libfoo.so / libfoo.a apart)
+            t0 = libs_[0]
+            proj.files['st_only.c'] = G.c_source('st_only')
+            main.append(G.Stmt('static_library', G.call(
+                'static_library', t0['name'], files=['st_only.c']),
+                'st_twin', name=t0['name'], srcs=['st_only.c']))
+            extra_conflict = 'output-named-twice'
+            proj.features.add('msvc_lib_name_clash')
         if rng.random() < 0.3:
             # a custom step with several outputs ...
             outs = ['gen/ver.h', 'gen/ver.c', 'gen/ver.txt'][:rng.randint(2,
@@ -153,7 +165,7 @@ class CollideGen:
                                          G.Raw('build_step.output')],
                 files=['ver.in']), 'gen'))
             proj.features.add('multi_output_step')
-            if rng.random() < 0.4:
+            if rng.random() < 0.4 and not extra_conflict:
                 # ... and a later step that names one of them again
                 clash = rng.choice(outs)
                 proj.files['other.in'] = 'o\n'
@@ -475,7 +487,7 @@ def run_case(seed, root, params=None):
     cfg = {'clock_mode': 'strict', 'bufsize': 4096, 'seed': seed,
            'jobs': rng.choice([1, 2, 4, 8])}
     for _ in range(20):
-        proj = CollideGen(rng).generate()
+        proj = CollideGen(rng).generate(backend)
         proj.backend = backend
         if not file_dir_clash(proj.model):
             break
